@@ -2,6 +2,6 @@
 # setup_cmd: pre-build every Coq directory and warm the Go build cache. Purely a warm-up: each check
 # rebuilds what it needs (and reports a proof that no longer compiles), so failures here are not fatal.
 V="$(cd "$(dirname "$0")/.." && pwd)"
-flock "$V/.coq.lock" sh -c 'cd "$0/coq" && sh mk_coqproject.sh && timeout 3000 make -k -j16 >"$0/build/setup_coq.log" 2>&1' "$V" || echo "setup: some Coq files did not build (see build/setup_coq.log); the checks will report them"
+python3 "$V/driver/lockall.py" sh -c 'cd "$0/coq" && sh mk_coqproject.sh && timeout 3000 make -k -j16 >"$0/build/setup_coq.log" 2>&1' "$V" || echo "setup: some Coq files did not build (see build/setup_coq.log); the checks will report them"
 sh "$V/driver/warm.sh"
 exit 0
